@@ -203,3 +203,13 @@ def unit_is_input(unit, S, p, consumed):
     for i in range(len(unit)):
         ok = ok and unit[i] == code_at(S, p + i)
     return ok
+
+
+def surrogate_in_escape_window(text):
+    """known finding (C05): a lone surrogate within the two characters after a '%'.  The
+    pure-Python quoter drops surrogates before it looks for the hex digits, the compiled quoter
+    looks first; the two disagree exactly on such texts (under a re-quoting quoter)."""
+    for i, c in enumerate(text):
+        if c == "%" and any(0xD800 <= ord(x) <= 0xDFFF for x in text[i + 1:i + 3]):
+            return True
+    return False
